@@ -289,17 +289,19 @@ def main(argv):
     n_pow = sum(r[0] for r in pres)
     n_obj, n_arr = sum(r[0] for r in res) + n_pow, sum(r[0] for r in ares)
     bad = [b for r in res + ares + pres for b in r[1]]
+    bounded_ids = {b[0] for r in ares for b in r[1]}
     nsets = sum(1 for _ in all_name_sets(maxk))
     groups = {}
     for oid, detail in bad:
         groups.setdefault(oid.split("{")[0], []).append((oid, detail))
-    nk = 0
+    nk = nk_b = 0
     for gname, items in sorted(groups.items()):
         shown = 0
         for oid, detail in items:
             kf = C.match_known("C06", oid, dict(detail=str(detail)))
             if kf:
                 nk += 1
+                nk_b += oid in bounded_ids
                 if shown == 0:
                     report.known_finding(oid, kf["what"] + f" (group of {len(items)} name sets)")
                 shown += 1
@@ -310,9 +312,13 @@ def main(argv):
                 shown += 1
     n = n_obj + n_arr
     level = "proof" if not bad else "other"
-    coverage = dict(obligations=n - nk, discharged=n - len(bad), obligations_posed=n, known_findings=nk, name_sets=nsets, exhaustive=True,
-                    by_backend={"real constructors executed on symbolic values, all name sets of <= 5 of the 19 names (+ unknown names)": n_obj,
-                                f"array constructors on sentinel columns, all name sets of <= {amaxk} names (bounded in array shape: 2 rows)": n_arr},
+    nbad_b = sum(1 for b in bad if b[0] in bounded_ids)
+    # only the parametric part (real constructors on symbolic values) is counted as obligations / discharged; the array constructors run on
+    # concrete 2-row sentinel columns: BOUNDED, reported separately (a failure there is still a violation)
+    coverage = dict(obligations=n_obj - (nk - nk_b), discharged=n_obj - (len(bad) - nbad_b), obligations_posed=n_obj, known_findings=nk, name_sets=nsets, exhaustive=True,
+                    by_backend={"real constructors executed on symbolic values, all name sets of <= 5 of the 19 names (+ unknown names)": n_obj},
+                    bounded_array_constructors=dict(evaluations=n_arr, failed=nbad_b, label="BOUNDED run-time contracts - not counted in obligations / discharged",
+                                                    bound=f"vector.array (two spellings), vector.zip, vector.Array on 2-row sentinel columns, all name sets of <= {amaxk} names"),
                     all_subsets_of_the_19_names=dict(obligations=n_pow, rule="accepted <=> valid for every one of the 2^19 subsets with more than 5 names (vector.obj; plus the six object classes in the thorough tier); "
                                                       "beyond the statement's quantifier (<= 5 names) - replaces the AST->z3 encoding of the design"),
                     checker_cmd=f"./check C06 --tier {C.tier()}",
